@@ -69,6 +69,26 @@ def evaluate(matcher_mod, text, msgs):
         return ('crash', 'matches: %s: %r' % (type(e).__name__, e))
 
 
+HISTORY = []    # (new text, old text) pairs joined earlier in this process, the way `filter` / `breakpoint` commands do
+
+
+def perturb(ctx, matcher_mod, rng, recent):
+    """what a matcher means does not depend on which other matchers the session parsed and combined before: combine
+    two earlier expressions the way Controller.parse_and_join does, discard the result and carry on"""
+    if len(recent) < 2:
+        return
+    new, old = rng.sample(recent, 2)
+    try:
+        matcher_mod.join(matcher_mod.parse(new), matcher_mod.parse(old).simplify()).simplify()
+    except RuntimeError:
+        return
+    except Exception as e:
+        ctx.violation('matcher-crash', 'join(parse(%r), parse(%r).simplify()): %s: %r' % (new, old, type(e).__name__, e), {'text': new, 'history': [[new, old]], 'lines': []})
+        return
+    HISTORY.append([new, old])
+    ctx.count('history_joins')
+
+
 def check_expr(ctx, matcher_mod, ast, texts, projs, msgs, lines):
     ref = [mref.matcher_match(ast, p) for p in projs]
     n_def = sum(1 for r in ref if r is not None)
@@ -80,7 +100,7 @@ def check_expr(ctx, matcher_mod, ast, texts, projs, msgs, lines):
     for t in texts:
         ctx.ev()
         kind, res = evaluate(matcher_mod, t, msgs)
-        case = {'text': t, 'ast': ast, 'lines': lines, 'ref': ref}
+        case = {'text': t, 'ast': ast, 'lines': lines, 'ref': ref, 'history': list(HISTORY)}
         if kind == 'rejected':
             ctx.count('rejected')
             ctx.violation('rejected', 'documented-grammar expression %r rejected: %s' % (t, res), case, reason=res)
@@ -102,7 +122,7 @@ def check_expr(ctx, matcher_mod, ast, texts, projs, msgs, lines):
         if r is not None and results[0] is not None and r != results[0]:
             i = next(i for i in range(len(r)) if r[i] != results[0][i])
             ctx.violation('rendering-variance', 'renderings %r and %r of one expression differ on message %d %r' % (texts[0], t, i, lines[i][:160]),
-                          {'text': t, 'text0': texts[0], 'ast': ast, 'lines': lines, 'message_index': i, 'ref': ref})
+                          {'text': t, 'text0': texts[0], 'ast': ast, 'lines': lines, 'message_index': i, 'ref': ref, 'history': list(HISTORY)})
             break
     return n_def, n_true, len(projs)
 
@@ -141,13 +161,18 @@ def run(ctx, spec):
         ctx.count('vocab_' + k, len(vocab[k]))
     g = mgen.Gen(rng, vocab)
     probe_known(ctx, matcher_mod, projs, msgs, lines)
+    recent = []
     for n in range(spec['exprs']):
+        if n % 12 == 11:
+            perturb(ctx, matcher_mod, rng, recent)
         ast = g.matcher()
         texts = [mgen.Render().matcher(ast),
                  mgen.Render(rng, ws=0.5).matcher(ast),
                  mgen.Render(rng, br=0.35).matcher(ast),
                  mgen.Render(rng, ws=0.4, br=0.3).matcher(ast)]
         n_def, n_true, n_all = check_expr(ctx, matcher_mod, ast, texts, projs, msgs, lines)
+        recent.append(texts[0])
+        del recent[:-40]
         sh = mgen.shape(ast)
         ctx.setadd('ast_shapes', h64(sh))
         if 0 < n_true < n_all:
@@ -178,6 +203,13 @@ def replay(ctx, case):
     s = Session()
     s.feed([l + '\n' for l in case['lines']])
     msgs = list(s.ctl.all_messages)
+    for new, old in case.get('history', []):
+        try:
+            matcher_mod.join(matcher_mod.parse(new), matcher_mod.parse(old).simplify()).simplify()
+        except Exception as e:
+            print('history join', repr(new), repr(old), '->', type(e).__name__, e)
+    if case.get('history'):
+        print('%d earlier joins replayed' % len(case['history']))
     for key in ('text0', 'text'):
         if key in case:
             kind, res = evaluate(matcher_mod, case[key], msgs)
